@@ -330,6 +330,22 @@ def _payload(m, lv, bi, b, payload, nprng):
             if n == "volFrac":
                 arr[..., f] = np.round(nprng.random(b.shape) * 4) / 4
         return arr
+    if payload == "thermo":
+        # thermochemical state: temp, Y(sp) normalised, a few all-zero cells (covered EB cells)
+        arr = nprng.random(shp) + 0.1
+        ys = [f for f, n in enumerate(m.names) if n.startswith("Y(")]
+        zero = nprng.random(b.shape) < 0.04
+        if ys:
+            y = nprng.random(b.shape + (len(ys),)) ** 3
+            y /= y.sum(axis=-1, keepdims=True)
+            y[zero] = 0.0
+            arr[..., ys] = y
+        for f, n in enumerate(m.names):
+            if n == "temp":
+                t = 300.0 + 2000.0 * nprng.random(b.shape)
+                t[zero] = 0.0
+                arr[..., f] = t
+        return arr
     if payload == "affine":
         # names decide: ax/ay/az affine in one coordinate; tag = level/box/cell tag; else random
         arr = nprng.standard_normal(shp)
